@@ -331,6 +331,41 @@ def fn_rename_variants(only):
     return out
 
 
+def const_rename_variants(only):
+    """Every module-level constant (bound once in the package, not dunder, not `logger`) renamed with all its references."""
+    srcs = {p.name: p.read_text() for p in sorted(PKG.glob("*.py"))}
+    trees = {n: ast.parse(s) for n, s in srcs.items()}
+    defs = {}
+    for n, t in trees.items():
+        for st in t.body:
+            if isinstance(st, ast.Assign) and len(st.targets) == 1 and isinstance(st.targets[0], ast.Name):
+                defs.setdefault(st.targets[0].id, []).append(n)
+    fnames = {x.name for t in trees.values() for x in ast.walk(t) if isinstance(x, (ast.FunctionDef, ast.ClassDef))}
+    out = []
+    for name, where in sorted(defs.items()):
+        if len(where) != 1 or name.startswith("__") or name in ("logger",) or name in fnames or (only and where[0][:-3] not in only):
+            continue
+        # public tables exported through __init__ / __all__ keep their names in real life; they are renamed here all the same
+        new = "_" + name.lower() + "_rn" if name.isupper() else name.upper() + "_RN"
+        over = {}
+        for n, t0 in trees.items():
+            if name not in srcs[n]:
+                continue
+            t = copy.deepcopy(t0)
+            hit = False
+            for x in ast.walk(t):
+                if isinstance(x, ast.Name) and x.id == name:
+                    x.id = new; hit = True
+                elif isinstance(x, ast.Attribute) and x.attr == name:
+                    x.attr = new; hit = True
+                elif isinstance(x, ast.alias) and x.name == name:
+                    x.name = new; hit = True
+            if hit:
+                over[f"hvsrpy/{n}"] = ast.unparse(t)
+        out.append((f"constrename:{where[0][:-3]}.{name}", over))
+    return out
+
+
 def run(job):
     label, rel, new_src, pid = job
     os.environ["HVSA_EVIDENCE_DIR"] = "/tmp/hvsa_eval_evidence"
@@ -357,7 +392,9 @@ if __name__ == "__main__":
         if a == "--limit":
             limit = int(sys.argv[i + 1])
     kinds = kinds or ["rename", "rettemp"]
-    vs = variants(only, [k for k in kinds if k != "fnrename"])
+    vs = variants(only, [k for k in kinds if k not in ("fnrename", "constrename")])
+    if "constrename" in kinds:
+        vs += [(lab, None, over) for lab, over in const_rename_variants(only)]
     if "fnrename" in kinds:
         vs += [(lab, None, over) for lab, over in fn_rename_variants(only)]
     if limit:
